@@ -54,9 +54,12 @@ def process(args):
             return sid, dict(status="patch does not apply to the current tree"), {}
         suite = sh(f"PYTHONPATH={w} /venv/bin/python -m pytest -q -p no:cacheprovider --timeout=900 --continue-on-collection-errors 2>&1 | tail -1", cwd=w).stdout.strip()
         p = sh(f"PYTHONPATH={w} timeout 180 /venv/bin/python {d}/demo.py", cwd=w).returncode
-        sh("git stash -q", cwd=w)
+        # (no git stash: the stash stack is shared by all worktrees of a repository)
+        if sh(f"git apply -R {d}/patch.diff", cwd=w).returncode:
+            return sid, dict(status="machinery: cannot revert the patch"), {}
         q = sh(f"PYTHONPATH={w} timeout 180 /venv/bin/python {d}/demo.py", cwd=w).returncode
-        sh("git stash pop -q", cwd=w)
+        if sh(f"git apply {d}/patch.diff", cwd=w).returncode or not sh("git diff --stat", cwd=w).stdout.strip():
+            return sid, dict(status="machinery: cannot re-apply the patch"), {}
         ok = "171 passed" in suite and "failed" not in suite and p != 0 and q == 0
         conf = dict(status="confirmed" if ok else "not confirmed", suite=suite, demo_rc_with_patch=p, demo_rc_without_patch=q,
                     commands=["git apply patch.diff   (scratch worktree of /repo HEAD)",
